@@ -179,6 +179,10 @@ pub fn run(ctx: &Ctx) -> i32 {
             cases.push((K, 4));
         }
     }
+    // the checked build (debug assertions + overflow checks; its solver re-verifies itself in O(L^3))
+    // runs the same relations on the smaller blocks
+    let kmax = ctx.args.ex_u64("kmax", 56403) as usize;
+    cases.retain(|&(K, _)| K <= kmax);
     par_for(cases.len(), |i| {
         let (K, T) = cases[i];
         let seed = splitmix(&mut (ctx.seed() ^ (i as u64) << 16 ^ 0x1818));
@@ -188,7 +192,7 @@ pub fn run(ctx: &Ctx) -> i32 {
             ctx.sample(|| J::obj(vec![("K", J::i(K)), ("T", J::i(T)), ("windows", J::s("every (s,n) in 0..=50 x 0..=20 for K in {3,10}; random windows n<=300, s log-uniform up to 2^24-K-n incl. windows ending exactly at ESI 2^24-1; overlapping pairs"))]));
         }
     });
-    let nobj = ctx.args.pick(20000, 200000);
+    let nobj = ctx.args.ex_u64("nobj", ctx.args.pick(20000, 200000)) as usize;
     par_for(nobj, |i| run_object(ctx, ctx.seed(), i as u64, &st));
     ctx.eval(nobj);
     ctx.cov("windows_requested", J::i(st[0].load(Relaxed)));
